@@ -72,7 +72,9 @@ func GenWS(t *rapid.T, p Profile) WS {
 				w.Files[full] = rapid.SampledFrom(contentPool).Draw(t, "content")
 			}
 		}
-		switch rapid.IntRange(0, 5).Draw(t, "inputs") {
+		switch rapid.IntRange(0, 6).Draw(t, "inputs") {
+		case 6: // the same files, spelled the long way round
+			tg.Inputs = []string{"./top.txt", "src/../src/a.txt", "src/./b.txt"}
 		case 0:
 		case 1:
 			tg.Inputs = []string{"top.txt"}
